@@ -1,4 +1,5 @@
-/- The `oracle` executable: one request per line on stdin, one answer per line on stdout. -/
+/- GENERATED layout: an oracle executable serving the groups DER, Script, Codec, Address, Keys, Hash, Bip39, Ecc, Bip32, Taproot, Utxo, SigHash, Stream, Parsers (plus the wire ops). -/
+import BtcVerif.Oracle.Loop
 import BtcVerif.Oracle.Wire
 import BtcVerif.Oracle.DER
 import BtcVerif.Oracle.Script
@@ -17,26 +18,4 @@ import BtcVerif.Oracle.Parsers
 
 open BtcVerif.Oracle
 
-def handlers : List (String → List String → Option String) :=
-  [wireOp, opDER, opScript, opCodec, opAddress, opKeys, opHash, opBip39, opEcc, opBip32, opTaproot,
-   opUtxo, opSigHash, opStream, opParsers]
-
-def dispatch (op : String) (args : List String) : String :=
-  match handlers.findSome? (fun h => h op args) with
-  | some r => r
-  | none => "bad-op"
-
-def handleLine (line : String) : String :=
-  match (line.trimAscii.toString.splitOn " ").filter (· ≠ "") with
-  | [] => "bad-op"
-  | op :: args => dispatch op args
-
-partial def loop (hin hout : IO.FS.Stream) : IO Unit := do
-  let line ← hin.getLine
-  if line.isEmpty then return ()
-  hout.putStrLn (handleLine line)
-  hout.flush
-  loop hin hout
-
-def main : IO Unit := do
-  loop (← IO.getStdin) (← IO.getStdout)
+def main : IO Unit := runOracle [wireOp, opDER, opScript, opCodec, opAddress, opKeys, opHash, opBip39, opEcc, opBip32, opTaproot, opUtxo, opSigHash, opStream, opParsers]
